@@ -63,6 +63,12 @@ func (fr *Frame) step(st *State, ins ssa.Instruction) {
 					}
 				}
 				if ok {
+					if fr.srcTypes == nil {
+						fr.srcTypes = map[string]types.Type{}
+					}
+					if !i.IsAddr {
+						fr.srcTypes[id.Name] = i.X.Type()
+					}
 					st.srcVar[id.Name] = val
 					st.srcAdr[id.Name] = i.IsAddr
 					if fr.lhsIdent[id.Pos()] {
@@ -148,11 +154,30 @@ func (fr *Frame) step(st *State, ins ssa.Instruction) {
 		}
 		env[i] = &FuncV{Fn: fn, Bindings: bs}
 	case *ssa.RunDefers:
-		if fr.v.hasDefers[fr.fn] {
-			unsup("defer in %s", fr.fn.Name())
+		d := len(st.envs)
+		for len(st.defers[d]) > 0 {
+			l := st.defers[d]
+			dc := l[len(l)-1]
+			st.defers[d] = l[:len(l)-1]
+			fr.runDeferred(st, dc)
 		}
 	case *ssa.Defer:
-		unsup("defer in %s", fr.fn.Name())
+		if st.defers == nil {
+			st.defers = map[int][]*deferredCall{}
+		}
+		dc := &deferredCall{cc: &i.Call, site: i}
+		if i.Call.IsInvoke() {
+			dc.fnv = fr.get(st, i.Call.Value)
+		} else if _, isFn := i.Call.Value.(*ssa.Function); !isFn {
+			if _, isB := i.Call.Value.(*ssa.Builtin); !isB {
+				dc.fnv = fr.get(st, i.Call.Value)
+			}
+		}
+		for _, a := range i.Call.Args {
+			dc.args = append(dc.args, fr.get(st, a))
+		}
+		d := len(st.envs)
+		st.defers[d] = append(st.defers[d], dc)
 	case *ssa.Go:
 		unsup("go statement in %s", fr.fn.Name())
 	case *ssa.Send, *ssa.Select, *ssa.MakeChan:
@@ -192,6 +217,9 @@ func (fr *Frame) addrField(st *State, x Value, f int) Value {
 		}
 		return &PtrV{Obj: p.Obj, Path: append(append([]PE(nil), p.Path...), PE{I: f})}
 	case *IteV:
+		if nn, ok := fr.derefNonNil(st, p, "field address"); ok {
+			return fr.addrField(st, nn, f)
+		}
 		return &IteV{C: p.C, A: fr.addrField(st, p.A, f), B: fr.addrField(st, p.B, f)}
 	}
 	unsup("fieldaddr of %T", x)
